@@ -58,7 +58,7 @@ func runC09(r *ev.Run) {
 	r.Rule = "case = (vector template flat|hnsw|trained ivf|none, with/without text and metadata templates, metric, memtable size limit from one document up) x 1-4 sessions of (add* [Flush])* Close; " +
 		"every Open uses freshly constructed templates; after every acknowledged Flush the directory listing and a sha256 of every segment file are recorded; after every Close the store is reopened (fresh templates) and " +
 		"one all-matching query per modality (vector / text / metadata) must return every document added before a Flush/Close that returned nil; earlier segment files must be byte-identical and new segment ids larger than every id seen; " +
-		"non-trivial = >=2 sessions, >=1 mid-session Flush, >=1 memtable rotation, documents in >=2 segments; distinct by (params, session shape)"
+		"non-trivial = >=2 sessions, >=1 mid-session Flush, >=1 memtable rotation, documents in >=2 segments; distinct by (params, session shape) Since the seed waves: rotate / Train / injected I/O fault before mid-session flushes, an image of the directory right after every acknowledged Flush, refused removes of flushed documents, documents carrying only an unconfigured modality, PQ / IVFPQ templates, odd directory names and spellings."
 	r.Assumptions = []string{"reopen happens in the same process with freshly constructed template objects (a new process is used in the thorough tier through cmd/storehelper)", "HNSW template: <=30 documents per memtable (exact regime per segment), IVF template trained before Open and searched at full probe"}
 	n := r.Pick(60, 1500)
 	r.CasesParallel("sessions", n, 8, func(ci int, rng *rand.Rand) {
